@@ -104,9 +104,41 @@ def run(m: Model, r: Report, tier: str) -> None:
     r.check(len(enc) == 1 and len(enc[0].args) == 1 and ast.unparse(enc[0].args[0]) == "args" and not enc[0].keywords, "R1", f"{fp.qualname}#args-unaltered",
             f"the parameter map is encoded as `{ast.unparse(enc[0]) if enc else None}`; values must be written exactly as given (re-formatting, e.g. to hex, "
             "breaks fields the consumer parses as decimal)", loc=fp.loc)
-    r.check("join_host_port(host, port)" in src and "host if port is None" in src and m.has(fp, "urlunparse((scheme, netloc, '', '', urlencode(args), ''))") and
+    r.check("join_host_port(host, port)" in src and m.has(fp, "urlunparse((scheme, netloc, '', '', urlencode(args), ''))") and
             not any(isinstance(n, (ast.For, ast.While, ast.DictComp)) for n in ast.walk(fp.node)), "R1", f"{fp.qualname}#uses-all-parts",
             "scheme, host, port and args must all reach urlunparse", loc=fp.loc)
+    # the network location for every kind of host, with and without port (finite-domain evaluation; join_host_port is interpreted from its own source):
+    # an IPv6 literal is bracketed exactly once, also when there is no port - otherwise urlparse takes the text after the last colon for a port
+    from sa import miniterp as _mt20
+    jhp = m.require_function(f"{NET}.join_host_port")
+
+    def _orc(call, env):
+        fn_ = ast.unparse(call.func)
+        if fn_.endswith("join_host_port") and len(call.args) == 2:
+            ret_, env_ = _mt20.run_function(jhp.node, dict(zip(jhp.params(), [_mt20.eval_expr(a, env, _orc) for a in call.args])), _orc)
+            return _mt20.eval_expr(ret_.value, env_, _orc)
+        if fn_.endswith("urlencode"):
+            return "Q"
+        if fn_.endswith("urlunparse") and len(call.args) == 1:
+            return ("URL",) + tuple(_mt20.eval_expr(call.args[0], env, _orc))
+        if fn_ == "cls" and len(call.args) == 1:
+            return _mt20.eval_expr(call.args[0], env, _orc)
+        return NotImplemented
+    bad_nl = []
+    pr = fp.params()
+    for host_ in ("example.org", "10.0.0.1", "fec2::10"):
+        for port_ in (None, 0, 6801):
+            want = (f"[{host_}]" if ":" in host_ else host_) + ("" if port_ is None else f":{port_}")
+            try:
+                ret_, env_ = _mt20.run_function(fp.node, {"cls": None, pr[1]: "doip", pr[2]: host_, pr[3]: port_, pr[4]: {"a": 1}}, _orc)
+                val = _mt20.eval_expr(ret_.value, env_, _orc)
+                got = val[2] if isinstance(val, tuple) and len(val) > 2 and val[0] == "URL" else repr(val)
+            except _mt20.Raised:
+                got = "raises"
+            if got != want:
+                bad_nl.append(f"({host_}, {port_}) -> {got}")
+    r.check(not bad_nl, "R1", f"{fp.qualname}#netloc", f"network location for (host, port): {bad_nl[:3]}; an IPv6 literal must be bracketed exactly once, with and without a port "
+            "(unbracketed, urlparse reads the text after its last colon as the port and hostname / port raise ValueError)", loc=fp.loc)
     tu = m.require_class(f"{BASE}.TargetURI")
     qs = tu.methods.get("qs_flat")
     r.check(qs is not None and "v[0]" in ast.unparse(qs.node), "R1", f"{tu.qualname}.qs_flat#first-value", "qs_flat must return the first value of each key", loc=tu.loc)
